@@ -28,11 +28,21 @@ REQS = {
     "rep": [(100, (1,)), (200, (1,)), (100, (1,)), (300, (2,))],
     # two different groups that share a component
     "ovl": [(100, (1, 2)), (200, (2, 3)), (300, (1, 2)), (400, (2, 3))],
+    # one group whose id set is built in different insertion orders (8 and 16 share a hash slot, so the two sets
+    # iterate differently although they are equal)
+    "ord": [(100, (8, 16)), (200, (16, 8)), (300, (8, 16)), (400, (16, 8))],
     "rep2": [(100, (1,)), (200, (1,)), (100, (1,)), (200, (1,)), (100, (1,))],
     "q": [(100, (1,)), (200, (1,)), (300, (2,)), (400, (1,))],
     "t": [(100, (1,)), (200, (1,)), (300, (2,)), (400, (1,)), (500, (2,)), (600, (1,))],
     "q2": [(100, (1,)), (200, (1,)), (300, (1,)), (400, (2,)), (500, (2,))],
 }
+
+
+def _ordered_set(ids):
+    s = set()
+    for i in ids:  # insertion order is part of the plan
+        s.add(i)
+    return s
 
 
 class ProbeManager:
@@ -51,7 +61,7 @@ class ProbeManager:
         self.epoch = 0
 
     def component_ids(self):
-        return {1, 2, 3}
+        return {1, 2, 3, 8, 16}
 
     async def start(self):
         pass
@@ -112,7 +122,7 @@ def make_scenario(cfg: str, instant: bool):
                 loop.settle()
                 m = ProbeManager.current
                 sender = req.new_sender()
-                objs = [Request(power=Power.from_watts(p), component_ids=set(ids)) for p, ids in reqs]
+                objs = [Request(power=Power.from_watts(p), component_ids=_ordered_set(ids)) for p, ids in reqs]
                 by_id = {id(o): k for k, o in enumerate(objs)}
 
                 def ident(r):
@@ -256,9 +266,9 @@ def run(tier: str, seed: int, workers: int):
 
     acc = Acc()
     plans = (
-        [("q", False, 2), ("q", True, 1), ("q2", False, 1), ("rep", False, 1), ("ovl", False, 1)]
+        [("q", False, 2), ("q", True, 1), ("q2", False, 1), ("rep", False, 1), ("ovl", False, 1), ("ord", False, 1)]
         if tier == "quick"
-        else [("t", False, 2), ("q", True, 2), ("q2", True, 1), ("t", True, 1), ("rep", True, 2), ("rep2", False, 2), ("ovl", True, 2)]
+        else [("t", False, 2), ("q", True, 2), ("q2", True, 1), ("t", True, 1), ("rep", True, 2), ("rep2", False, 2), ("ovl", True, 2), ("ord", False, 2)]
     )
     bounds = {}
     for cfg, instant, bound in plans:
